@@ -35,6 +35,9 @@ def fr(v):
 
 def approx(obs, exact, scale):
     tol = Fraction(1, 10 ** 12) * max(1, scale)
+    import math
+    if any(isinstance(o, float) and not math.isfinite(o) for o in obs):
+        return False          # NaN / inf observed: never close to an exact value
     return all(abs(core.frac(o) - e) <= tol for o, e in zip(obs, exact))
 
 
